@@ -76,9 +76,15 @@ func defaultInits(pkg string) []string {
 
 func printResult(hr *sym.HarnessResult) {
 	fmt.Printf("== %s: paths=%d steps=%d queries=%d solver=%v wall=%v truncated=%v ends=%v\n", hr.Name, hr.Paths, hr.Steps, hr.Queries, hr.SolverTime.Round(time.Millisecond), hr.Wall.Round(time.Millisecond), hr.Truncated, hr.Ends)
+	seen := map[string]int{}
 	for _, v := range hr.Violations {
-		fmt.Printf("   VIOL %s: %s @ %s model=%v\n", v.Kind, v.Msg, v.Where, v.Model)
+		k := v.Kind + v.Msg + v.Where
+		seen[k]++
+		if seen[k] == 1 {
+			fmt.Printf("   VIOL %s: %s @ %s model=%v known=%q\n", v.Kind, v.Msg, v.Where, v.Model, v.Known)
+		}
 	}
+	fmt.Printf("   violation classes=%d total=%d\n", len(seen), len(hr.Violations))
 	for i, u := range hr.Unsupported {
 		if i > 5 {
 			break
